@@ -378,6 +378,11 @@ func (w *c41Worker) run(bi int, beh []map[string]any, res *vh.Result) {
 				got[u] = string(v.Data)
 			}
 			if kind, what := diffResults(want, got, node.ID()); kind != "" {
+				if kind == "other-duplicate" {
+					// which of a node's duplicated answers is kept is not part of the property
+					drift(fmt.Sprintf("survey %d returned %v, the model keeps the latest duplicate %v: %s", id, got, want, what))
+					return
+				}
 				violate("result:"+kind, fmt.Sprintf("survey %d returned %v, expected %v: %s", id, got, want, what))
 				return
 			}
@@ -488,6 +493,9 @@ func diffResults(want, got map[string]string, self string) (string, string) {
 			return "missing", fmt.Sprintf("no entry for %s", u)
 		}
 		if g != v {
+			if i, j := strings.LastIndexByte(g, ':'), strings.LastIndexByte(v, ':'); i > 0 && j > 0 && g[:i] == v[:j] {
+				return "other-duplicate", fmt.Sprintf("entry for %s is %q, expected %q", u, g, v)
+			}
 			return "wrong-answer", fmt.Sprintf("entry for %s is %q, expected %q", u, g, v)
 		}
 	}
